@@ -402,6 +402,8 @@ def targets(tier='quick'):
     # the time grid starts from the constructor's arguments: start_time / end_time reach the fields the grid contracts read
     from . import prep
     T += [t for t in prep.targets(PROP, lambda ob: {'func': 'api_time_grid', 'inputs': {'obligation': ob['name']}}) if t.name.startswith('api/')]
+    for w in ('tempo_compute', 'pt_tempo_compute'):
+        T += prep.wrapper_targets(PROP, w, lambda ob: {'func': 'api_time_grid', 'inputs': {'obligation': ob['name']}})
     RE = expect_registry()
     for with_op in (False, True):
         for real in (False, True):
